@@ -309,13 +309,13 @@ fn cmd_sweep(args: &[String]) -> i32 {
     // arenas reached after some other property was violated on the way
     let mut free_json = json!(null);
     let mut free_unknown = 0usize;
-    if (prop == "C01" || prop == "C02" || prop == "C10") && arg(args, "--bounds").is_none()
+    if (prop == "C01" || prop == "C02" || prop == "C10" || prop == "C07") && arg(args, "--bounds").is_none()
         && !reports.iter().any(|r| r.violations.iter().any(|v| !v.known))
     {
         let (n, a) = if tier == "quick" { (4, 6) } else { (4, 8) };
         // C01 also with payload destructors that panic (a call that unwinds half-way must leave the
         // links consistent), at a smaller bound: such arenas keep nodes whose payload is gone
-        if prop == "C01" {
+        if prop == "C01" || prop == "C10" || prop == "C07" {
             let (bn, ba) = if tier == "quick" { (3, 4) } else { (3, 5) };
             let fb = free::explore(bn, ba, pl.judge.target, threads(), Some(deadline), true);
             eprintln!(
@@ -351,6 +351,20 @@ fn cmd_sweep(args: &[String]) -> i32 {
             }
         }
         eprintln!("[{prop} {tier}] deep shapes: a chain {n} deep and a node {n} wide traversed by every iterator, {:.1}s", t0.elapsed().as_secs_f64());
+    }
+    // C11: the lookup paths over the whole generation range of a slot (the deep history)
+    if prop == "C11" && arg(args, "--bounds").is_none() {
+        let cycles = if tier == "quick" { 70_000usize } else { 140_000 };
+        let pool = rayon::ThreadPoolBuilder::new().num_threads(threads()).build().unwrap();
+        let (dr, _) = pool.install(|| deep::run_parallel(cycles, threads().max(2), JudgeCfg::default().retire_min));
+        let mut sigs: Vec<String> = Vec::new();
+        for (c, f) in &dr.failures {
+            if f.props & pl.judge.target != 0 && !sigs.contains(&f.sig) {
+                sigs.push(f.sig.clone());
+                free_unknown += emit_simple(&prop, &f.sig, &f.detail, &known, json!({"engine": "deep", "init": "Arena::new()", "ops": ["(new_node; remove 1) repeated"], "deep_cycles": c + 1}));
+            }
+        }
+        eprintln!("[{prop} {tier}] deep run: {} cycles of (new_node; remove), lookups checked in every cycle, {} failure kinds, {:.1}s", dr.cycles_done, sigs.len(), t0.elapsed().as_secs_f64());
     }
     // C13: with_capacity(n) changes nothing observable: same digest stream as new(), capacity >= n
     let mut extra_unknown = free_unknown;
@@ -417,6 +431,15 @@ fn cmd_sweep(args: &[String]) -> i32 {
                 Err(e) => extra_unknown += emit_simple("C13", "capacity-twin|deep-cycle|-|panicked", &format!("the deep history panicked: {e}"), &known, json!({"engine": "sweep"})),
             }
         }
+        // the room promised by with_capacity / reserve / kept by clear() stays through every short history
+        // (replayed from scratch: clones do not carry spare capacity)
+        {
+            let depth = if tier == "quick" { 4 } else { 5 };
+            match roomy_histories(depth) {
+                Ok((paths, calls)) => caps.push(json!({"roomy_histories_depth": depth, "histories": paths, "calls": calls, "room_kept": true})),
+                Err((sig, why)) => extra_unknown += emit_simple("C13", &sig, &why, &known, json!({"engine": "sweep"})),
+            }
+        }
         for k in [20_000usize, 1_000_000] {
             let a0: indextree::Arena<payload::Payload> = indextree::Arena::with_capacity(k);
             caps.push(json!({"with_capacity": k, "capacity": a0.capacity()}));
@@ -440,11 +463,21 @@ fn cmd_sweep(args: &[String]) -> i32 {
         extra = json!({"with_capacity_runs": caps});
     }
     if prop == "C17" {
+        // calls that unwind from the middle (a payload destructor panics) and calls documented to panic
+        // leave the same arena / give the same outcome in every build
+        let fb = free::explore(3, if tier == "quick" { 4 } else { 5 }, pl.judge.target, threads(), Some(deadline), true);
+        let edge: Vec<String> = vec![
+            ops::guarded(|| { let mut a: indextree::Arena<payload::Payload> = indextree::Arena::new(); a.new_node(payload::Payload(1)); a.reserve(usize::MAX); a.capacity() > 0 }).map(|b| format!("returned {b}")).unwrap_or_else(|m| format!("panicked: {m}")),
+            ops::guarded(|| { let mut a: indextree::Arena<payload::Payload> = indextree::Arena::new(); a.reserve(isize::MAX as usize / 8); a.capacity() > 0 }).map(|b| format!("returned {b}")).unwrap_or_else(|m| format!("panicked: {m}")),
+            ops::guarded(|| { let a: indextree::Arena<payload::Payload> = indextree::Arena::with_capacity(usize::MAX); a.capacity() > 0 }).map(|b| format!("returned {b}")).unwrap_or_else(|m| format!("panicked: {m}")),
+        ];
         let (dg, grew) = deep::id_digest(if tier == "quick" { 70_000 } else { 140_000 });
         let pool = rayon::ThreadPoolBuilder::new().num_threads(threads()).build().unwrap();
         let ppr = pool.install(|| if tier == "quick" { pp::run_with(5, 3, 2, 10) } else { pp::run_with(6, 4, 2, 12) });
         extra = json!({"deep_history_digest": format!("{dg:016x}"), "arena_grew_at_cycles": grew,
-            "pretty_print_digest": format!("{:016x}", ppr.digest), "pretty_print_renderings": ppr.evaluations});
+            "pretty_print_digest": format!("{:016x}", ppr.digest), "pretty_print_renderings": ppr.evaluations,
+            "unwound_removals_closure": {"states": fb.states, "transitions": fb.transitions, "exhaustive": fb.exhaustive, "digest": format!("{:016x}", fb.digest)},
+            "calls_documented_to_panic": edge});
     }
     let unknown = extra_unknown + report::emit(
         &prop,
@@ -496,6 +529,102 @@ fn cmd_sweep(args: &[String]) -> i32 {
     } else {
         0
     }
+}
+
+#[derive(Clone, Copy, Debug, PartialEq)]
+enum ROp {
+    New,
+    Append(usize),
+    Remove(usize),
+    RemoveSubtree(usize),
+    Clear,
+    Reserve(usize),
+}
+
+/// C13: every history of at most `depth` calls over {new_node, append_value, remove, remove_subtree,
+/// clear, reserve} (at most 4 slots) replayed from scratch on arenas with room to spare: the capacity
+/// never drops below what with_capacity / reserve promised (or clear() kept), the storage is not
+/// reallocated while the promise covers the nodes, and the arena stays equal to the one the same
+/// history gives from Arena::new().
+fn roomy_histories(depth: usize) -> Result<(u64, u64), (String, String)> {
+    use indextree::Arena;
+    use payload::Payload;
+    type Mk = fn() -> (Arena<Payload>, usize);
+    let inits: Vec<(&str, Mk)> = vec![
+        ("Arena::with_capacity(1000)", || (Arena::with_capacity(1000), 1000)),
+        ("Arena::new() + reserve(500)", || { let mut a = Arena::new(); a.reserve(500); (a, 500) }),
+        ("300 nodes, then clear()", || { let mut a = Arena::new(); for i in 0..300 { a.new_node(Payload(i as u8)); } let c = a.capacity(); a.clear(); (a, c) }),
+        ("Arena::with_capacity(70)", || (Arena::with_capacity(70), 70)),
+    ];
+    // runs `path` on `a`; returns Err(description) at the first broken promise
+    fn replay(a: &mut indextree::Arena<payload::Payload>, mut promised: usize, path: &[ROp], check: bool) -> Result<(), String> {
+        let ptr0 = a.as_slice().as_ptr();
+        let mut ids: Vec<indextree::NodeId> = Vec::new();
+        let mut next = 0u8;
+        for (i, op) in path.iter().enumerate() {
+            let cap_before = a.capacity();
+            match *op {
+                ROp::New => { let id = a.new_node(payload::Payload(next)); next += 1; let x = obs::slot_of(id); if x < ids.len() { ids[x] = id } else { ids.push(id) } }
+                ROp::Append(p) => { let id = ids[p].append_value(payload::Payload(next), a); next += 1; let x = obs::slot_of(id); if x < ids.len() { ids[x] = id } else { ids.push(id) } }
+                ROp::Remove(x) => ids[x].remove(a),
+                ROp::RemoveSubtree(x) => ids[x].remove_subtree(a),
+                ROp::Clear => { a.clear(); ids.clear(); }
+                ROp::Reserve(k) => { a.reserve(k); promised = promised.max(a.count() + k); }
+            }
+            if !check { continue; }
+            let what = format!("after call {} of {:?}", i + 1, path);
+            if a.capacity() < promised {
+                return Err(format!("{what}: capacity() = {} although room for {promised} nodes was promised (capacity before the call: {cap_before})", a.capacity()));
+            }
+            if matches!(op, ROp::Clear) && a.capacity() < cap_before {
+                return Err(format!("{what}: clear() shrank the capacity from {cap_before} to {}", a.capacity()));
+            }
+            if a.count() <= promised && a.count() > 0 && !matches!(op, ROp::Reserve(_)) && a.as_slice().as_ptr() != ptr0 {
+                return Err(format!("{what}: the storage was reallocated although the promised room ({promised}) covers the {} nodes", a.count()));
+            }
+        }
+        Ok(())
+    }
+    fn enabled(a: &indextree::Arena<payload::Payload>) -> Vec<ROp> {
+        let mut v = vec![ROp::New, ROp::Clear, ROp::Reserve(8)];
+        let live: Vec<usize> = a.as_slice().iter().enumerate().filter(|(_, n)| !n.is_removed()).map(|(i, _)| i).collect();
+        let can_alloc = a.count() < 4 || live.len() < a.count();
+        if !can_alloc { v.remove(0); }
+        for &x in &live {
+            if can_alloc { v.push(ROp::Append(x)); }
+            v.push(ROp::Remove(x));
+            v.push(ROp::RemoveSubtree(x));
+        }
+        v
+    }
+    let (mut paths, mut calls) = (0u64, 0u64);
+    for (name, mk) in &inits {
+        let mut stack: std::collections::VecDeque<Vec<ROp>> = std::collections::VecDeque::from(vec![Vec::new()]);
+        while let Some(path) = stack.pop_front() {
+            let (mut a, promised) = mk();
+            let r = ops::guarded(|| replay(&mut a, promised, &path, true));
+            paths += 1;
+            calls += path.len() as u64;
+            match r {
+                Ok(Ok(())) => {}
+                Ok(Err(why)) => return Err(("roomy|capacity|-|promised-room-lost".into(), format!("from {name}: {why}"))),
+                Err(m) => return Err(("roomy|capacity|-|panicked".into(), format!("from {name}, history {:?}: {m}", path))),
+            }
+            let mut plain = Arena::new();
+            let same = ops::guarded(|| replay(&mut plain, 0, &path, false)).is_ok() && plain == a && format!("{:?}", plain) == format!("{:?}", a);
+            if !same {
+                return Err(("roomy|behaviour|-|differs-from-new".into(), format!("the history {:?} gives a different arena from {name} than from Arena::new()", path)));
+            }
+            if path.len() < depth {
+                for op in enabled(&a) {
+                    let mut p = path.clone();
+                    p.push(op);
+                    stack.push_back(p);
+                }
+            }
+        }
+    }
+    Ok((paths, calls))
 }
 
 /// Report a violation found by one of the non-E1 engines (or a KNOWN-FINDING); returns 1 if unknown.
@@ -663,6 +792,7 @@ fn cmd_readers(args: &[String]) -> i32 {
     let mut tot_scheds = 0u64;
     let mut sample = Vec::new();
     let mut big_states: Vec<state::State> = Vec::new();
+    let mut unwinding_runs = 0u64;
     for (n, a, k, steps) in plans {
         let states = collect_states(n, a);
         let scheds = readers::interleavings(k, steps);
@@ -692,6 +822,17 @@ fn cmd_readers(args: &[String]) -> i32 {
         if sample.is_empty() {
             if let Some(s) = states.iter().max_by_key(|s| s.model.live_slots().len()) {
                 sample.push(json!({"arena": obs::fmt_obs(&s.obs), "readers": ["traverse(1)", "children-from-both-ends(1)"], "schedule": scheds[scheds.len() / 2]}));
+            }
+        }
+        // readers on a thread that is unwinding from a panic (dumps made from Drop guards), every arena
+        {
+            let bad: Vec<(usize, String)> = pool.install(|| {
+                states.par_iter().enumerate().filter_map(|(i, s)| readers::unwinding_readers(s, 4).map(|m| (i, m))).collect()
+            });
+            unwinding_runs += states.len() as u64;
+            if let Some((i, m)) = bad.into_iter().min_by_key(|(i, _)| *i) {
+                if m.starts_with("machinery") { machinery(&m); }
+                unknown += emit_simple("C18", "unwinding|threads|-|observation-depends-on-thread-state", &format!("arena {}: {m}", obs::fmt_obs(&states[i].obs)), &known, json!({"engine": "readers", "part": "unwinding"}));
             }
         }
         let mut sorted: Vec<&state::State> = states.iter().collect();
@@ -727,6 +868,48 @@ fn cmd_readers(args: &[String]) -> i32 {
         }
         eprintln!("[C18 {tier}] shuttle check_dfs on real threads: {shuttle_schedules} schedules, {:.1}s", t0.elapsed().as_secs_f64());
     }
+    // ---- arenas with retired slots (three slots recycled until their generation counter is used up,
+    // next to a small tree): every pair of readers under every interleaving, and repeated solo runs
+    let mut retired_info = json!(null);
+    if let Some(r) = deep::find_retirement(70_000) {
+        let built = ops::guarded(|| {
+            let mut st = deep::seed_state_at(r + 1, 3, 2);
+            let cfgj = JudgeCfg::default();
+            for op in [ops::Op::AppendValue(0), ops::Op::AppendValue(0), ops::Op::AppendValue(1)] {
+                if let Some(n) = step::step(&st, op, &cfgj).next { st = n; }
+            }
+            st
+        });
+        match built {
+            Ok(st) => {
+                let retired = st.arena.iter().filter(|n| n.is_removed()).count();
+                let scheds = readers::interleavings(2, 3);
+                let mut stats = readers::InterleaveStats { groups: 0, schedules: 0, steps: 0 };
+                if let Some(m) = readers::check_state(&st, 2, 3, &scheds, &mut stats) {
+                    let names: Vec<String> = m.readers.iter().map(|(k, id)| format!("{}({})", readers::SCRIPT_NAMES[*k], obs::fmt_id(Some(*id)))).collect();
+                    let sig = format!("interleaver|{}|retired-slots|observation-differs-from-solo-run", m.readers.get(m.which).map(|(k, _)| readers::SCRIPT_NAMES[*k]).unwrap_or("arena-changed"));
+                    unknown += emit_simple("C18", &sig, &format!("arena with {retired} removed slots whose generation counter is used up, {} | readers {:?} | schedule {:?}: reader {} observes something else than when it runs alone", obs::fmt_obs(&st.obs), names, m.schedule, m.which), &known,
+                        json!({"engine": "readers", "part": "interleaver", "arena": "seed_state_at(retirement+1, 3 slots, 2 live) + 3 append_value", "readers": names, "schedule": m.schedule}));
+                }
+                if let Some(m) = readers::free_running(&st, 8, if q { 100 } else { 1000 }) {
+                    unknown += emit_simple("C18", "free-running|threads|retired-slots|observation-differs-from-solo-run", &format!("arena with retired slots {}: {m}", obs::fmt_obs(&st.obs)), &known, json!({"engine": "readers", "part": "free-running"}));
+                }
+                tot_states += 1; tot_steps += stats.steps; tot_scheds += stats.schedules;
+                retired_info = json!({"retired_slots": retired, "groups": stats.groups, "schedules": stats.schedules, "steps": stats.steps});
+                big_states.push(st);
+            }
+            Err(m) => machinery(&format!("building the arena with retired slots panicked: {m}")),
+        }
+    }
+    // ---- readers on a thread that is unwinding from a panic (dumps made from Drop guards) ----
+    for s in &big_states {
+        unwinding_runs += 1;
+        if let Some(m) = readers::unwinding_readers(s, 4) {
+            if m.starts_with("machinery") { machinery(&m); }
+            unknown += emit_simple("C18", "unwinding|threads|-|observation-depends-on-thread-state", &format!("arena {}: {m}", obs::fmt_obs(&s.obs)), &known, json!({"engine": "readers", "part": "unwinding"}));
+            break;
+        }
+    }
     let mut free_runs = 0;
     for s in &big_states {
         free_runs += 1;
@@ -746,6 +929,8 @@ fn cmd_readers(args: &[String]) -> i32 {
                 "schedules": tot_scheds,
                 "shuttle_dfs_schedules_on_real_threads": shuttle_schedules,
                 "free_running_thread_runs_sampled_not_exhaustive": free_runs,
+                "arena_with_retired_slots": retired_info,
+                "arenas_read_from_an_unwinding_thread": unwinding_runs,
                 "par_iter_compared_with_iter_in_arenas": par_states,
                 "interleaver": parts,
                 "side_conditions_not_model_checking": {
